@@ -36,7 +36,7 @@ fn opt_same(whole: &[u8], got: Option<&str>, s: usize, e: usize) -> bool {
 
 /// Borrowed form: acceptance = shape oracle; re-scanning accessors = parts() =
 /// oracle split; reassembly; decoded_data of a non-base64 URL.
-fn data_url_borrowed<const N: usize, const PREFIXED: bool>() {
+fn data_url_borrowed<const N: usize, const PREFIXED: bool, const DECODE: bool>() {
     let t = Text::<N>::any();
     let b = t.bytes();
     if PREFIXED {
@@ -57,7 +57,9 @@ fn data_url_borrowed<const N: usize, const PREFIXED: bool>() {
             let p = d.parts();
             assert!(opt_same(b, p.media_type, 5, me) && p.base_64 == b64 && is_subslice(b, p.data.as_bytes(), ds, b.len()), "C18: borrowed parts()");
             assert!(ds == me + if b64 { 8 } else { 1 } && b[ds - 1] == b',', "C18: parts do not reassemble the text");
-            if !b64 {
+            // decoded_data() links in the base64 engine whatever the flag is: it is
+            // only called in the dedicated (thorough) instance
+            if DECODE && !b64 {
                 match d.decoded_data() {
                     Ok(Cow::Borrowed(x)) => assert!(is_subslice(b, x, ds, b.len()), "C18: decoded_data() of a non-base64 URL is not the data bytes"),
                     _ => panic!("C18: decoded_data() of a non-base64 URL is not a borrowed view of the data"),
@@ -104,12 +106,12 @@ fn data_url_owned<const N: usize>() {
     }
 }
 
-// @h prop=C18 tier=quick kind=check timeout=2400 mem=16 bound="any byte string <= 9 bytes" encodes="DataUrl::{new,media_type,is_base_64_encoded,encoded_data,parts,decoded_data};DataUrlDelimiters::parse (Uri::validate -> table twin)"
+// @h prop=C18 tier=quick kind=check timeout=2400 mem=16 bound="any byte string <= 9 bytes" encodes="DataUrl::{new,media_type,is_base_64_encoded,encoded_data,parts};DataUrlDelimiters::parse (Uri::validate -> table twin)"
 #[cfg_attr(kani, kani::proof)]
 #[cfg_attr(kani, kani::unwind(12))]
 #[cfg_attr(kani, kani::stub(iref_core::uri::Uri::validate, crate::tables::t_uri_uri_validate_iter))]
 pub fn c18_data_url_borrowed_n9() {
-    data_url_borrowed::<9, false>()
+    data_url_borrowed::<9, false, false>()
 }
 
 // @h prop=C18 tier=quick kind=check timeout=2400 mem=20 bound="any byte string <= 13 bytes that starts with data: (so that data:;base64, fits)" encodes="same as c18_data_url_borrowed_n9"
@@ -117,7 +119,7 @@ pub fn c18_data_url_borrowed_n9() {
 #[cfg_attr(kani, kani::unwind(16))]
 #[cfg_attr(kani, kani::stub(iref_core::uri::Uri::validate, crate::tables::t_uri_uri_validate_iter))]
 pub fn c18_data_url_prefixed_n13() {
-    data_url_borrowed::<13, true>()
+    data_url_borrowed::<13, true, false>()
 }
 
 // @h prop=C18 tier=thorough kind=check timeout=3600 mem=34 bound="any byte string <= 13 bytes" encodes="same as c18_data_url_borrowed_n9"
@@ -125,7 +127,7 @@ pub fn c18_data_url_prefixed_n13() {
 #[cfg_attr(kani, kani::unwind(16))]
 #[cfg_attr(kani, kani::stub(iref_core::uri::Uri::validate, crate::tables::t_uri_uri_validate_iter))]
 pub fn c18_data_url_borrowed_n13() {
-    data_url_borrowed::<13, false>()
+    data_url_borrowed::<13, false, false>()
 }
 
 // @h prop=C18 tier=quick kind=check timeout=2400 mem=16 bound="any byte string <= 9 bytes" encodes="DataUrlBuf::{new,media_type,is_base_64_encoded,encoded_data,parts};Deref to DataUrl (UriBuf::new; Uri::validate -> table twin)"
@@ -141,7 +143,7 @@ pub fn c18_data_url_owned_n9() {
 #[cfg_attr(kani, kani::unwind(21))]
 #[cfg_attr(kani, kani::stub(iref_core::uri::Uri::validate, crate::tables::t_uri_uri_validate_iter))]
 pub fn c18_data_url_prefixed_n18() {
-    data_url_borrowed::<18, true>()
+    data_url_borrowed::<18, true, false>()
 }
 
 // @h prop=C18 tier=thorough kind=check timeout=5400 mem=30 bound="any byte string <= 14 bytes" encodes="same as c18_data_url_owned_n9"
@@ -150,4 +152,12 @@ pub fn c18_data_url_prefixed_n18() {
 #[cfg_attr(kani, kani::stub(iref_core::uri::Uri::validate, crate::tables::t_uri_uri_validate_iter))]
 pub fn c18_data_url_owned_n14() {
     data_url_owned::<14>()
+}
+
+// @h prop=C18 tier=thorough kind=check timeout=3600 mem=34 bound="any byte string <= 8 bytes: decoded_data of a non-base64 URL" encodes="DataUrl::decoded_data (links the base64 engine; only the non-base64 branch is asserted)"
+#[cfg_attr(kani, kani::proof)]
+#[cfg_attr(kani, kani::unwind(11))]
+#[cfg_attr(kani, kani::stub(iref_core::uri::Uri::validate, crate::tables::t_uri_uri_validate_iter))]
+pub fn c18_data_url_decode_n8() {
+    data_url_borrowed::<8, false, true>()
 }
